@@ -21,7 +21,7 @@ func genClosures(r *rand.Rand, id string, tier string) string {
 	nextLeaf = 0
 	var recv V
 	if r.Intn(3) == 0 {
-		recv = V{T: 'C', Form: "n", Kw: []string{"k", "", "cn"}[r.Intn(3)], Op: []string{"c1", "c3", "c0"}[r.Intn(3)], Xs: []V{{T: 'i', I: int64(r.Intn(9))}}}
+		recv = V{T: 'C', Form: "n", Kw: []string{"k", "", "cn"}[r.Intn(3)], Op: []string{"c1", "c3", "c0", "-"}[r.Intn(4)], Xs: []V{{T: 'i', I: int64(r.Intn(9))}}}
 	} else {
 		c := Cfg{Kind: kinds(r)}
 		if r.Intn(3) == 0 {
